@@ -354,9 +354,13 @@ FUNCS = {
     'ident': lambda v: v,
     'none_neg': lambda v: None if _fin(v) and v < 0 else v,
     'str': lambda v: str(v),
+    # numeric-LOOKING text stored unchecked by `col @ f`: it stays text (not a number) for every statistic
+    'fmt2': lambda v: '%.2f' % v if _fin(v) else v,
+    'strint': lambda v: str(v) if type(v) is int else v,                              # only the ints become text
 }
 EXOTIC = ['npabs', 'npint64', 'npint32', 'npfloat64', 'npfloat32', 'npround', 'frac3', 'frac', 'dec', 'pos', 'even']
-PLAINF = ['neg', 'half', 'sq', 'tofloat', 'ident', 'none_neg', 'str']
+PLAINF = ['neg', 'half', 'sq', 'tofloat', 'ident', 'none_neg', 'str', 'fmt2', 'strint']
+TEXTF = ['str', 'fmt2', 'strint']
 ARITH = {'+': lambda a, b: a + b, '-': lambda a, b: a - b, '*': lambda a, b: a * b, '/': lambda a, b: a / b}
 
 
@@ -887,7 +891,7 @@ class C12:
             o = rng.choice(['mapfree', 'mapfree', 'colslice', 'colrows', 'colsel', 'farith', 'farith'] +
                            (['set', 'set', 'set'] if family == 'free' else []))
             if o == 'mapfree':
-                return ['mapfree', rng.choice(EXOTIC + EXOTIC + PLAINF[:3])]
+                return ['mapfree', rng.choice(EXOTIC + EXOTIC + PLAINF[:3] + TEXTF)]
             if o == 'colslice':
                 a = rng.randint(0, n)
                 return ['colslice', a, rng.randint(a, n)]
@@ -1131,7 +1135,7 @@ class C12:
         for i in range(220 if quick else 2200):
             kind = 'KMixed' if rng.random() < 0.8 else rng.choice(['KFloat', 'KInt'])
             vals = self.modest(rng, kind)
-            f = EXOTIC[i % len(EXOTIC)]
+            f = (EXOTIC + TEXTF)[i % len(EXOTIC + TEXTF)]
             mf = ['mapfree', f]
             shape = rng.choice([[mf], [mf], [mf], ['derive', mf], ['derive', 'derive', mf], [mf, 'free'], [mf, 'free'],
                                 [mf, 'free', 'free'], ['derive', mf, 'free'], ['detach'], ['detach', 'free'],
